@@ -39,6 +39,7 @@ type peerCase struct {
 	Fam    string      `json:"fam"`
 	Role   string      `json:"role"` // of the sender
 	Rd     int         `json:"rd"`
+	Rbs    int         `json:"rbs"` // ReadBufferSize of the receiving Conn; 0: the default; -1: any - chosen here from the case text
 	Msgs   []wireMsg   `json:"msgs"`
 	Frames []peerFrame `json:"frames"`
 	Exp    []peerExp   `json:"exp"`
@@ -264,7 +265,10 @@ func runForeign(c *rp.Ctx, i, v int, cs *peerCase) rp.Result {
 		case 1:
 			b.In.Seg = transport.Random(int64(c.Seed)*7919+int64(v)+int64(ks), 7)
 		}
-		rbs := []int{16, 128, 1024, 4096}[(v/2+ks+c.Seed)%4]
+		rbs := cs.Rbs
+		if rbs < 0 {
+			rbs = []int{16, 128, 1024, 4096}[(v/2+ks+c.Seed)%4]
+		}
 		peer := websocket.VerifNewConn(b, masked, rbs, 256, negotiated)
 		a.Write(wire)
 		a.Out.CloseWrite()
